@@ -242,7 +242,10 @@ def main():
         obj = mod.CONTRACTS[i] if k == 'contract' else mod.LEMMAS[i]
         n = len(expand_scenarios(obj.params))
         if n > 1:
-            jobs.extend((args.repo, pid, k, i, si) for si in range(n))
+            # scenarios in fixed chunks (fresh process per chunk: reproducible solver state)
+            nchunks = min(n, 4 * args.jobs)
+            for ci in range(nchunks):
+                jobs.append((args.repo, pid, k, i, tuple(range(ci, n, nchunks))))
         else:
             jobs.append((args.repo, pid, k, i, None))
     if jobs:
